@@ -1,6 +1,6 @@
 (* OrderOfLeaves.v — consequences of the sort for flatten (property C02). *)
 From OptreeModel Require Import Base Tree Flatten Unflatten Spec.
-From OptreeProofs Require Import BaseProofs RoundTrip SpecProofs SortProofs EqProofs.
+From OptreeProofs Require Import BaseProofs RoundTrip SpecProofs SortProofs Sort2Proofs EqProofs.
 From Coq Require Import Permutation.
 
 Lemma lookup_perm {V} (l l' : list (key * V)) k :
@@ -41,6 +41,35 @@ Proof.
   assert (Hpk : Permutation ks ks').
   { rewrite <- (map_fst_combine ks cs Hl1), <- (map_fst_combine ks' cs' Hl2). apply Permutation_map. exact Hperm. }
   rewrite <- (sort_stage1_perm_invariant ks ks' Hs1 Hnd Hpk).
+  assert (Hch : mapM (child_by_key ks' cs') (total_order_sort ks) = mapM (child_by_key ks cs) (total_order_sort ks)).
+  { apply mapM_ext_in. intros k _. unfold child_by_key.
+    rewrite (lookup_perm _ _ k Hperm) by (rewrite map_fst_combine by exact Hl1; exact Hnd). reflexivity. }
+  rewrite Hch.
+  destruct (mapM (child_by_key ks cs) (total_order_sort ks)) as [ch|]; simpl in Hr |- *; [|discriminate].
+  destruct (flat_seq (flat c fuel) ch) as [[[ls ns] b]|]; simpl in Hr |- *; [|discriminate].
+  injection Hr as <-. eexists. split; [reflexivity|]. unfold r_ls, r_ns. simpl. split; [reflexivity|].
+  rewrite !map_app. simpl. unfold core. simpl.
+  rewrite (Permutation_length Hpk). reflexivity.
+Qed.
+
+(* the same for every dict whose keys can be sorted at all: by "<" (stage 1) or by (type name, key)
+   (stage 2) *)
+Theorem dict_insertion_order_irrelevant_any c fuel ks cs ks' cs' r :
+  ins_ordered c = false ->
+  apply_pred c (Node (HDict ks) cs) = false -> apply_pred c (Node (HDict ks') cs') = false ->
+  length ks = length cs -> length ks' = length cs' ->
+  Permutation (combine ks cs) (combine ks' cs') ->
+  NoDup ks -> (stage1_ok ks = true \/ stage2_ok ks = true) ->
+  flat c fuel (Node (HDict ks) cs) = Ok r ->
+  exists r', flat c fuel (Node (HDict ks') cs') = Ok r' /\
+             r_ls r' = r_ls r /\ map core (r_ns r') = map core (r_ns r).
+Proof.
+  intros Hins Hp1 Hp2 Hl1 Hl2 Hperm Hnd Hs1 Hr.
+  destruct fuel as [|fuel]; [discriminate|]. simpl in Hr |- *. rewrite Hp1 in Hr. rewrite Hp2.
+  rewrite Hins in *.
+  assert (Hpk : Permutation ks ks').
+  { rewrite <- (map_fst_combine ks cs Hl1), <- (map_fst_combine ks' cs' Hl2). apply Permutation_map. exact Hperm. }
+  rewrite <- (sort_perm_invariant ks ks' Hs1 Hnd Hpk).
   assert (Hch : mapM (child_by_key ks' cs') (total_order_sort ks) = mapM (child_by_key ks cs) (total_order_sort ks)).
   { apply mapM_ext_in. intros k _. unfold child_by_key.
     rewrite (lookup_perm _ _ k Hperm) by (rewrite map_fst_combine by exact Hl1; exact Hnd). reflexivity. }
